@@ -198,12 +198,14 @@ Inductive act :=
 | AExpect (mm : list (dname * nat))          (* self.expectThat(..): mismatch carrying these details *)
 | AAssert (mm : list (dname * nat))          (* self.assertThat(..): mismatch carrying these details *)
 | ACleanup (tok : nat) (body : list act)     (* self.addCleanup(f); f logs tok, then performs body *)
-| APatch (attr v : nat)                      (* self.patch(scratch, attr, v) *)
+| APatch (attr v : nat)                      (* self.patch(obj, name, v); attr = the key of (obj, name), see [parent] *)
 | AFixture (fx : fixture)                    (* self.useFixture(fx) *)
 | AOnExc (h : nat)                           (* self.addOnException(handler number h) *)
 | AForce                                     (* self.force_failure = True *)
 | AInsertHandler (c : cls) (o : outcome)     (* self.exception_handlers.insert(0, (c, handler reporting o)) *)
 | AExpectFailure (r : nat) (p : option exc)  (* self.expectFailure(reason r, predicate); predicate returns / raises p *)
+| APeek (n : dname)                          (* the body reads its own detail n now, if it has one:
+                                                b"".join(self.getDetails()[n].iter_bytes()); no effect *)
 | ARaise (e : exc).
 
 Record prog := {
@@ -246,7 +248,7 @@ Record st := {
   dets : details;               (* TestCase.__details *)
   tbgen : nat;                  (* next value of _traceback_id_gens['traceback'] *)
   cells : list (nat * nat);
-  attrs : list (nat * nat);     (* vars(scratch) *)
+  attrs : list (nat * nat);     (* the namespaces of the patched objects: key -> value *)
   onexc : list nat;             (* TestCase.__exception_handlers; not reset between runs *)
   force : bool;                 (* TestCase.force_failure; not reset between runs *)
   uh : list (cls * outcome);    (* what the user put in front of TestCase.exception_handlers, first first;
@@ -281,6 +283,31 @@ Fixpoint aput (k v : nat) (l : list (nat * nat)) : list (nat * nat) :=
   end.
 Fixpoint adel (k : nat) (l : list (nat * nat)) : list (nat * nat) :=
   match l with [] => [] | (j, w) :: r => if Nat.eqb k j then r else (j, w) :: adel k r end.
+
+(* The patched objects: an instance, its class Sub and Sub's base class Base.  Key 3*n + l (below 30) is the
+   ordinary attribute number n in the namespace of the instance (l = 0), of Sub (l = 1), of Base (l = 2):
+   attribute lookup falls back from the instance to Sub to Base.  Keys from 30 are attributes of the
+   instance served by a data descriptor of its class (a property with setter and deleter, a slot
+   inherited from a base class with __slots__): no fallback.  [attrs] holds the namespaces themselves
+   (for a property or slot: the value behind it). *)
+Definition parent (k : nat) : option nat :=
+  if Nat.ltb k 30 then (if Nat.ltb (Nat.modulo k 3) 2 then Some (S k) else None) else None.
+(* getattr(obj, name, <marker>) *)
+Definition getattr (k : nat) (l : list (nat * nat)) : option nat :=
+  match aget k l with
+  | Some v => Some v
+  | None => match parent k with
+            | None => None
+            | Some k1 => match aget k1 l with
+                         | Some v => Some v
+                         | None => match parent k1 with None => None | Some k2 => aget k2 l end
+                         end
+            end
+  end.
+(* the namespaces in a fixed order of the keys the harness uses (Python leaves the order across objects open) *)
+Definition universe : list nat := seq 0 9 ++ seq 30 6.
+Definition normal (l : list (nat * nat)) : list (nat * nat) :=
+  flat_map (fun k => match aget k l with Some v => [(k, v)] | None => [] end) universe.
 
 Definition cell (loc : nat) (s : st) : nat := match aget loc (cells s) with Some v => v | None => 0 end.
 Definition snapshot (s : st) (c : content) : content :=        (* _copy_content *)
@@ -393,7 +420,11 @@ Definition exec_act (a : act) (s : st) : st * option exc :=
   | AAssert mm => (add_mismatch mm s, Some (Exc CMismatch None))
   | ACleanup t body => (push (KUser t body) s, None)
   | APatch a v =>
-      (* MonkeyPatcher.patch: remember getattr-or-marker, setattr; addCleanup(restore) *)
+      (* MonkeyPatcher.patch (monkey.py, with fix cb3bba9 for F25): what restore() puts back is the value
+         the target holds ITSELF - getattr's answer, unless that was only inherited and setattr has now
+         shadowed it, in which case (as for a missing attribute) the marker: restore deletes the shadow.
+         For a property or slot of the instance getattr's answer is the cell's own value.  setattr;
+         addCleanup(restore) *)
       (push (KRestore a (aget a (attrs s))) (add_log [LSet a v] (set_attrs (aput a v (attrs s)) s)), None)
   | AFixture fx => use_fixture fx s
   | AOnExc h => (set_onexc (onexc s ++ [h]) s, None)
@@ -406,6 +437,7 @@ Definition exec_act (a : act) (s : st) : st * option exc :=
       | None => (s1, Some (Exc CUx (Some r)))
       | Some e => if isinstance e CFail then (report_traceback s1, Some (Exc CXFail None)) else (s1, Some e)
       end
+  | APeek _ => (s, None)
   | ARaise e => (s, Some e)
   end.
 
